@@ -447,6 +447,7 @@ impl fmt::Display for Label {
                 || ch == b';'
                 || ch == b'('
                 || ch == b')'
+                || ch == b'$'
             {
                 write!(f, "\\{}", ch as char)?;
             } else if !(0x20..0x7F).contains(&ch) {
